@@ -23,7 +23,7 @@ clause → theorem
 * blocking and async readers are the same function ............. `C02.reader_twins_agree`
 * the checks the model performs are the checks in the source .... `C02.parser_checks`, `C02.reader_shapes`
 * one-message-per-buffer entry points use the exact parsers ..... `C02.entry_points_exact`
-* a failed / timed-out frame read ends the connection ........... `C02.read_loops_never_resume`, `C02.client_read_loop_never_resumes` (why: `C02.resume_inside_frame_accepts_embedded`)
+* a failed / timed-out frame read ends the connection ........... `C02.read_loops_never_resume`, `C02.client_read_loop_never_resumes`, `C02.async_client_read_loops_never_resume` (why: `C02.resume_inside_frame_accepts_embedded`)
 
 `Outcome` has explicit `panic` and `abort` constructors (integer overflow with overflow-checks on,
 slice index out of range, `vec![0; n]` capacity overflow, allocation failure), so "never crashes" is
@@ -226,6 +226,12 @@ the loop. (At /repo 7face75 this is FALSE: an `Interrupted` error `continue`s, a
 having consumed part of a frame — finding F11, `fixes/F11-client-eintr-resync.diff`; the harness re-finds it with a real
 signal as `parse.net.client.resync_inside_frame_after_eintr`.) -/
 theorem client_read_loop_never_resumes : Gen.clientReadLoopEnds = true := by decide
+
+/-- The async client's response loop races the frame read against the shutdown signal only (which breaks), and every read
+error breaks; the WebSocket client's loop reads whole messages and races them against nothing. A timer / sleep / timeout
+arm, or a `continue` before the dispatch, would drop the non-resumable `read_message_async` mid-frame: extracted as `false`. -/
+theorem async_client_read_loops_never_resume :
+    Gen.asyncClientReadLoopEnds = true ∧ Gen.wsClientReadLoopPlain = true := by decide
 
 /-! ### Why the checked / fallible forms are needed: witnesses for the unchecked forms
 (these are the inputs F1 and F2 of DESIGN.md §9). -/
